@@ -1,18 +1,22 @@
 import JominiModel.Model.Scalar
+import JominiModel.Spec.Scalar
 import JominiModel.Proofs.Scalar
 import JominiModel.Generated.Tables
 /-
 C11 — Scalar numeric and boolean conversions are exact or refuse.
-Only property theorems live here; helper lemmas are in `Proofs/Scalar.lean`.
+Only property theorems live here; helper lemmas are in `Proofs/Scalar.lean`, reference
+definitions in `Spec/Scalar.lean`.
 -/
 namespace Jomini.Props.C11
-open Jomini Jomini.Scalar
+open Jomini Jomini.Scalar Jomini.Spec.Scalar
 
 /-- `to_bool` accepts exactly "yes" and "no". -/
 theorem C11_bool (s : Bytes) (b : Bool) :
     Scalar.toBool s = .ok b ↔ (s = [121, 101, 115] ∧ b = true) ∨ (s = [110, 111] ∧ b = false) := by
   unfold Scalar.toBool
   split <;> simp_all
+
+example : Scalar.toBool [121, 101, 115] = .ok true := by rfl
 
 /-- every all-digit rendering of a value that fits converts to exactly that value, and a
 rendering of a value that does not fit is refused (never wrapped). -/
@@ -26,5 +30,177 @@ theorem C11_u64_digits (c : UInt8) (body : Bytes) (hc : isDigit c = true) (hb : 
   by_cases h : decFrom body (digitVal c) ≤ U64_MAX <;> simp [h]
 
 example : toU64 [49, 50] = .ok 12 := by rfl
+
+/-- **to_u64 is exact, complete and refusing**: it returns `v` exactly for the decimal
+renderings (optional `+`, digits, leading zeros allowed; bare `"+"` is 0) of the values
+`0 ..= u64::MAX`; everything else is an error. -/
+theorem C11_u64 (s : Bytes) (v : Nat) :
+    toU64 s = .ok v ↔ IsU64Rendering s v ∧ v ≤ 2^64 - 1 := by
+  rw [toU64_ok_iff]
+  constructor
+  · rintro ⟨c, data, rfl, h | h⟩
+    · obtain ⟨hc, h⟩ := h
+      rw [toU64T2_ok_nil _ _ _ (digitVal_le c)] at h
+      obtain ⟨hd, hv, hle⟩ := h
+      refine ⟨⟨c :: data, ?_, ?_, Or.inl ⟨rfl, by simp⟩⟩, hle⟩
+      · simp [allDigits_cons, hc, hd]
+      · rw [decVal_cons]; exact hv
+    · obtain ⟨rfl, h⟩ := h
+      rw [toU64T2_ok_nil _ _ _ (by simp [U64_MAX])] at h
+      obtain ⟨hd, hv, hle⟩ := h
+      exact ⟨⟨data, hd, hv, Or.inr rfl⟩, hle⟩
+  · rintro ⟨⟨body, hd, hv, h | h⟩, hle⟩
+    · obtain ⟨rfl, hne⟩ := h
+      cases s with
+      | nil => exact absurd rfl hne
+      | cons c data =>
+        rw [allDigits_cons] at hd
+        refine ⟨c, data, rfl, Or.inl ⟨hd.1, ?_⟩⟩
+        rw [toU64T2_ok_nil _ _ _ (digitVal_le c)]
+        exact ⟨hd.2, by rw [hv, decVal_cons], hle⟩
+    · subst h
+      refine ⟨43, body, rfl, Or.inr ⟨rfl, ?_⟩⟩
+      rw [toU64T2_ok_nil _ _ _ (by simp [U64_MAX])]
+      exact ⟨hd, hv, hle⟩
+
+example : IsU64Rendering [43, 48, 48, 55] 7 ∧ 7 ≤ 2^64 - 1 :=
+  ⟨⟨[48, 48, 55], by decide, by decide, Or.inr rfl⟩, by decide⟩
+example : toU64 [43] = .ok 0 := by rfl   -- the quirk: bare "+"
+
+/-- a rendering of a value above `u64::MAX` is refused with `Overflow` (never wrapped). -/
+theorem C11_u64_out_of_range (s : Bytes) (v : Nat) (h : IsU64Rendering s v) (hv : v > 2^64 - 1) :
+    toU64 s = .error .overflow := by
+  obtain ⟨body, hd, rfl, h | h⟩ := h
+  · obtain ⟨rfl, hne⟩ := h
+    cases s with
+    | nil => exact absurd rfl hne
+    | cons c data =>
+      rw [allDigits_cons] at hd
+      rw [C11_u64_digits c data hd.1 hd.2]
+      have : ¬ decVal (c :: data) ≤ U64_MAX := by simp only [U64_MAX]; omega
+      simp [this]
+  · subst h
+    have : ¬ decFrom body 0 ≤ U64_MAX := by simp only [U64_MAX, decVal] at *; omega
+    simp [toU64, not_isDigit_43, toU64T2_allDigits body 0 hd (by simp [U64_MAX]), this]
+
+-- 2^64 = 18446744073709551616
+example : toU64 [49,56,52,52,54,55,52,52,48,55,51,55,48,57,53,53,49,54,49,54] = .error .overflow := by rfl
+
+/-- a string with a byte that is neither a digit nor `+` is refused. -/
+theorem C11_u64_foreign (s : Bytes) (h : ∃ b ∈ s, Foreign [43] b) : ∃ e, toU64 s = .error e := by
+  cases hr : toU64 s with
+  | error e => exact ⟨e, rfl⟩
+  | ok v =>
+    exfalso
+    obtain ⟨⟨body, hd, -, hs⟩, -⟩ := (C11_u64 s v).1 hr
+    obtain ⟨b, hb, hnd, hns⟩ := h
+    have hbody : ∀ x ∈ body, isDigit x = true := by simpa [allDigits] using hd
+    rcases hs with ⟨rfl, -⟩ | rfl
+    · simp [hbody b hb] at hnd
+    · rcases List.mem_cons.1 hb with rfl | hb
+      · simp at hns
+      · simp [hbody b hb] at hnd
+
+example : ∃ b ∈ ([49, 44, 50] : Bytes), Foreign [43] b := ⟨44, by decide, by decide, by decide⟩
+
+/-- **to_i64 is exact, complete and refusing**: it returns `v` exactly for the decimal
+renderings (optional `+` or `-`, digits; bare `"+"` / `"-"` are 0) of the values
+`-(2^63-1) ..= 2^63-1`; everything else — including `i64::MIN` — is an error. -/
+theorem C11_i64 (s : Bytes) (v : Int) :
+    toI64 s = .ok v ↔ IsI64Rendering s v ∧ v.natAbs ≤ 2^63 - 1 := by
+  rw [toI64_ok_iff]
+  have h0 : (0 : Nat) ≤ U64_MAX := by simp [U64_MAX]
+  constructor
+  · rintro ⟨c, data, n, rfl, hn, h | h | h⟩
+    · obtain ⟨hc, h, rfl⟩ := h
+      rw [toU64T2_ok_nil _ _ _ (digitVal_le c)] at h
+      obtain ⟨hd, hv, -⟩ := h
+      refine ⟨⟨c :: data, ?_, Or.inl ⟨rfl, by simp, ?_⟩⟩, ?_⟩
+      · simp [allDigits_cons, hc, hd]
+      · rw [decVal_cons, hv]
+      · simpa [I64_MAX] using hn
+    · obtain ⟨rfl, h, rfl⟩ := h
+      rw [toU64T2_ok_nil _ _ _ h0] at h
+      obtain ⟨hd, hv, -⟩ := h
+      refine ⟨⟨data, hd, Or.inr (Or.inr ⟨rfl, ?_⟩)⟩, ?_⟩
+      · rw [hv]; rfl
+      · simpa [I64_MAX] using hn
+    · obtain ⟨rfl, h, rfl⟩ := h
+      rw [toU64T2_ok_nil _ _ _ h0] at h
+      obtain ⟨hd, hv, -⟩ := h
+      refine ⟨⟨data, hd, Or.inr (Or.inl ⟨rfl, ?_⟩)⟩, ?_⟩
+      · rw [hv]; rfl
+      · simpa [I64_MAX] using hn
+  · rintro ⟨⟨body, hd, h | h | h⟩, hle⟩
+    · obtain ⟨rfl, hne, rfl⟩ := h
+      cases s with
+      | nil => exact absurd rfl hne
+      | cons c data =>
+        rw [allDigits_cons] at hd
+        have hle' : decVal (c :: data) ≤ I64_MAX := by simpa [I64_MAX] using hle
+        refine ⟨c, data, decVal (c :: data), rfl, hle', Or.inl ⟨hd.1, ?_, rfl⟩⟩
+        rw [toU64T2_ok_nil _ _ _ (digitVal_le c)]
+        exact ⟨hd.2, decVal_cons c data, by simp only [I64_MAX, U64_MAX] at *; omega⟩
+    · obtain ⟨rfl, rfl⟩ := h
+      have hle' : decVal body ≤ I64_MAX := by simpa [I64_MAX] using hle
+      refine ⟨43, body, decVal body, rfl, hle', Or.inr (Or.inr ⟨rfl, ?_, rfl⟩)⟩
+      rw [toU64T2_ok_nil _ _ _ h0]
+      exact ⟨hd, rfl, by simp only [I64_MAX, U64_MAX] at *; omega⟩
+    · obtain ⟨rfl, rfl⟩ := h
+      have hle' : decVal body ≤ I64_MAX := by simpa [I64_MAX] using hle
+      refine ⟨45, body, decVal body, rfl, hle', Or.inr (Or.inl ⟨rfl, ?_, rfl⟩)⟩
+      rw [toU64T2_ok_nil _ _ _ h0]
+      exact ⟨hd, rfl, by simp only [I64_MAX, U64_MAX] at *; omega⟩
+
+example : IsI64Rendering [45, 48, 52, 50] (-42) ∧ (-42 : Int).natAbs ≤ 2^63 - 1 :=
+  ⟨⟨[48, 52, 50], by decide, Or.inr (Or.inr ⟨rfl, by decide⟩)⟩, by decide⟩
+example : toI64 [45] = .ok 0 := by rfl   -- the quirk: bare "-"
+
+/-- a rendering of a value outside `-(2^63-1) ..= 2^63-1` is refused with `Overflow`. -/
+theorem C11_i64_out_of_range (s : Bytes) (v : Int) (h : IsI64Rendering s v) (hv : v.natAbs > 2^63 - 1) :
+    toI64 s = .error .overflow := by
+  have h0 : (0 : Nat) ≤ U64_MAX := by simp [U64_MAX]
+  obtain ⟨body, hd, h | h | h⟩ := h
+  · obtain ⟨rfl, hne, rfl⟩ := h
+    cases s with
+    | nil => exact absurd rfl hne
+    | cons c data =>
+      rw [allDigits_cons] at hd
+      have : decFrom data (digitVal c) > I64_MAX := by
+        rw [← decVal_cons]; simp only [I64_MAX]; omega
+      simp only [toI64, toI64T, hd.1, if_true]
+      exact toI64Go_overflow data 1 _ hd.2 (digitVal_le c) this
+  · obtain ⟨rfl, rfl⟩ := h
+    have : decFrom body 0 > I64_MAX := by
+      simp only [I64_MAX]; simp only [decVal] at hv; omega
+    simp only [toI64, toI64T, not_isDigit_43, show ((43 : UInt8) == 45) = false by decide,
+      beq_self_eq_true, Bool.false_eq_true, if_false, if_true]
+    exact toI64Go_overflow body 1 0 hd h0 this
+  · obtain ⟨rfl, rfl⟩ := h
+    have : decFrom body 0 > I64_MAX := by
+      simp only [I64_MAX]; simp only [decVal] at hv; omega
+    simp only [toI64, toI64T, not_isDigit_45, beq_self_eq_true, Bool.false_eq_true, if_false, if_true]
+    exact toI64Go_overflow body (-1) 0 hd h0 this
+
+-- -2^63 = -9223372036854775808 (i64::MIN) is refused
+example : toI64 [45,57,50,50,51,51,55,50,48,51,54,56,53,52,55,55,53,56,48,56] = .error .overflow := by rfl
+
+/-- a string with a byte that is neither a digit nor a sign is refused. -/
+theorem C11_i64_foreign (s : Bytes) (h : ∃ b ∈ s, Foreign [43, 45] b) : ∃ e, toI64 s = .error e := by
+  cases hr : toI64 s with
+  | error e => exact ⟨e, rfl⟩
+  | ok v =>
+    exfalso
+    obtain ⟨⟨body, hd, hs⟩, -⟩ := (C11_i64 s v).1 hr
+    obtain ⟨b, hb, hnd, hns⟩ := h
+    have hbody : ∀ x ∈ body, isDigit x = true := by simpa [allDigits] using hd
+    rcases hs with ⟨rfl, -, -⟩ | ⟨rfl, -⟩ | ⟨rfl, -⟩
+    · simp [hbody b hb] at hnd
+    · rcases List.mem_cons.1 hb with rfl | hb
+      · simp at hns
+      · simp [hbody b hb] at hnd
+    · rcases List.mem_cons.1 hb with rfl | hb
+      · simp at hns
+      · simp [hbody b hb] at hnd
 
 end Jomini.Props.C11
